@@ -29,6 +29,9 @@ ASSUMPTIONS = ["labels are ASCII (Python's str.isdigit also accepts non-ASCII di
                "a free parameter is a label 'a' followed by at least one ASCII decimal digit (the test of tree_to_aifeyn and labels_to_shape)",
                "single_function (unchanged by /repo bda8ceb) needs consecutive canonical names a0..a(m-1): its step (4) lists parameters via "
                "get_max_param, tied statically + by emulation and proved equal to tree_to_aifeyn under Gapless only"]
+# tables whose committed version may stand in as a hand-written model when the translator cannot read the source;
+# value = the correspondence that then ties it to the code (common.prove / common.decide)
+FALLBACK = {'Aifeyn': 'real aifeyn_complexity / tree_to_aifeyn / generator files vs the Lean model on PRNG label lists and libraries'}
 MODELLED = ["generator.py:aifeyn_complexity", "generator.py:generate_equations", "generator.py:labels_to_shape",
             "generator.py:is_float", "generator.py:node_to_string", "simplifier.py:get_max_param",
             "simplifier.py:count_params", "fit_single.py:tree_to_aifeyn"]
